@@ -207,8 +207,12 @@ def pointee_release(g, pd):
     rets = [y["i"] for y in walk(g.body) if y.get("k") == "return"]
     for r in rels:
         ok = False
+        ra = X.strip(r["ch"][-1] if X.callee_name(r) == "spifmem_free" else r["ch"][1])
         for y in stores:
             if y["i"] > r["i"] and ctl(y) <= ctl(r) and not any(r["i"] < ri < y["i"] for ri in rets):
+                ok = True
+            # reset first, then released through the local that took the old value (held = *slot; *slot = NULL; del(held))
+            if y["i"] < r["i"] and ctl(y) <= ctl(r) and ra is not None and ra.get("k") == "ref" and ra.get("rk") == "local":
                 ok = True
         if not ok:
             return "dangling"
